@@ -19,13 +19,22 @@ def showRecs (rs : List Rec) : String :=
 /-- canonical multiset of gene models: the rendered genes, sorted -/
 def canonGenes (gs : List PGene) : List String := (gs.map showPGene).mergeSort (fun a b => decide (a ≤ b))
 
+/-- the two Lean models of the locus-tag grouping (record level, and C18's `Model.Qual` on uids) must agree -/
+def c18Agree (rs : List Rec) : Bool :=
+  let inp := (rs.filter validFeature).filter fun r => isGeneLike r && hasKey Model.Gb.kLocusTag r.quals
+  match groupByLocusTagRecs inp, groupByLocusTagViaC18 inp with
+  | .ok a, .ok b => a == b
+  | .error e1, .error e2 => e1 == e2
+  | _, _ => false
+
 def ops : List (String × Op) := [
   ("gbw", do
       let fl ← pFlavor; let force ← pBool; let trans ← pBool; let c ← pColl
       pure (showR showRecs (writeModel ⟨fl, force, trans, currentWriterRule⟩ c))),
   ("gbp", do
       let m ← pMode; let rs ← pList pRec
-      pure (showP showPGenes (parseModel m rs))),
+      if !c18Agree rs then pure "err! ModelMismatch-C18"
+      else pure (showP showPGenes (parseModel m rs))),
   ("gbrt", do
       let fl ← pFlavor; let m ← pMode; let c ← pColl
       match writeModel ⟨fl, true, false, currentWriterRule⟩ c with
